@@ -44,6 +44,56 @@ BUILT = {
             "All 22 indicators, periods 1..8: every active prefix over {2,0.3,1e6,7.7,1e9} up to depth 4 (3 for exponential-memory kinds at small periods), five flat levels, scalar / one-price-bar / same-bar / zero-volume stretches of every length up to 64..1300 (thorough 600..6000): at every step with a degenerate reference window the output must be finite, in range and neutral where a neutral value is documented.",
             "Finite prefix alphabet; stretch lengths bounded (long enough for period<=3 exponential averages to underflow).",
             "DESIGN.md 4/C08"),
+    "C09": ("model_checking",
+            "bounded-exhaustive sequence enumeration on the real code; invariants evaluated in every state",
+            "SD/MAD >= 0 and not NaN, TR/ATR >= 0, Minimum <= Maximum (paired run), lower <= average <= upper (BB, KC), ChandelierExit inside the reference window extremes, histogram = line - signal (MACD, PPO), SMA/WMA inside the window hull, EMA inside the history hull: checked on every state of seq(S_int+reset, 7/9), seq(S_rough, 6/8), seq(B_grid+reset, 5/6) for periods 1..5 and multipliers {0,0.5,2,1e6}, plus all 5^3 orderings of cancellation-prone macro regimes at three scales.",
+            "Finite alphabets, depth-bounded; hull/band/histogram relations allowed the tau(t)*M slack the statement grants.",
+            "DESIGN.md 4/C09"),
+    "C10": ("model_checking",
+            "bounded-exhaustive enumeration of bar sequences with independently varying fields; differential oracles (bar vs scalar path, perturbed undocumented fields, alternative implementors)",
+            "All 22 indicators, periods {1,3}: all 8^5 (8^6) sequences over bars whose five fields are pairwise distinct and not valid OHLC: Next<&T> vs Next<f64> on the documented field; every undocumented field replaced (all at once finite/NaN, one at a time) must not change any output; a second implementor storing integers, DataItem on valid bars, one-price bars vs scalar path; minimal-trait user types compiled and run from /verif/surface.",
+            "Finite bar alphabet; documented field sets taken from the property statement.",
+            "DESIGN.md 4/C10"),
+    "C11": ("model_checking",
+            "exhaustive enumeration of constructor arguments + bounded-exhaustive histories for accessor stability",
+            "Every single-period constructor on every period 0..=4096, every multi-period constructor on all tuples over 0..=24 (and every period 0..=4096 in each position), multipliers {2,0,-1,NaN,1e300}, boundary periods 2^31, 2^32, 2^53+1, usize::MAX-1, usize::MAX for allocation-free indicators, each under catch_unwind with overflow checks: Err(InvalidParameter) iff some period is 0; period()/multiplier()/Display equal the arguments after every operation of every history (depth 4/5); Default::default() vs new(documented defaults) output-by-output.",
+            "Windowed constructors are tried only up to 4096 (memory); periods between 4096 and 2^31 are not enumerated.",
+            "DESIGN.md 4/C11"),
+    "C12": ("model_checking",
+            "bounded-exhaustive enumeration of special-value sequences + deviation-bounded fault injection (special value / reset at every position) on the real code under catch_unwind",
+            "All 22 indicators: all sequences over {1.0, NaN, +-inf, +-f64::MAX, 5e-324, -0.0, inconsistent bars, reset} up to depth 5/6 for periods 1..4 and multipliers {2,0,-1,NaN,1e300,inf}; for every period 1..64 a default stream of 3n+3 inputs at every prefix length and with every special value or reset injected at every position (pairs of positions for n<=16 in thorough); periods 100, 257, 1000, 4096 at wrap-around positions; Display, Debug, clone and bincode serialization invoked in every final state; built with overflow checks and debug assertions.",
+            "No panic is the only oracle; covers cursor arithmetic for periods 1..64 completely (input-independent cursors).",
+            "DESIGN.md 4/C12"),
+    "C13": ("exploration",
+            "systematic enumeration of long generated streams (all orderings of regime segments x periods x scales) on the real code vs recomputation from the harness's own window",
+            "SMA, WMA, SD, BB, MAD, CCI, MFI, MIN, MAX over streams of 1e5 (quick) / 2e6 (thorough) inputs without reset: all orderings of {alternating extremes, saw-tooth, LCG walk, plateau, spikes} segments, periods up to 1000, band bases 1e-3..1.1e6; compared at every 997th step, around segment boundaries and at the end with a from-scratch double-double evaluation of the current window at tau(t)*M.",
+            "A designed family of long streams, not all streams; regime contents follow fixed generators.",
+            "DESIGN.md 4/C13"),
+    "C14": ("model_checking",
+            "bounded-exhaustive enumeration of streams x transforms; metamorphic oracle on paired real runs",
+            "All indicators except RSI, periods {1,2,3,5}: all positive scalar streams of length 6/7 and bar streams of length 4/5, each re-run on c*x for powers of two (quick 6, thorough all 80 in 2^-40..2^40) and 3, 0.1, 7.3, 1e-3, and on x+d for d in {0.5,1,100}; price-valued outputs scale/shift, dimensionless ones are unchanged at 1e-12 (powers of two) / 1e-9 (x condition number) tolerance; Maximum(x) = -Minimum(-x) exactly on all mixed-sign streams of length 8/9.",
+            "SD and Bollinger half-widths are compared as variances (the well-conditioned form).",
+            "DESIGN.md 4/C14"),
+    "C15": ("model_checking",
+            "bounded-exhaustive sequence enumeration; differential oracle composite vs hand-wired public parts (all real code)",
+            "BB, SlowStochastic, ATR, MACD, PPO, KeltnerChannel, ChandelierExit, CCI vs separately constructed SMA, SD, EMA, FastStochastic, TrueRange, ATR, Minimum, Maximum, MAD fed the same stream and combined as documented: all 9^6 (9^7) scalar streams over a mixed-sign/rough alphabet and all 10^5 (10^6) valid-bar streams, periods {1,2,3,5,14}, multipliers {2,0,0.5,3}.",
+            "Differential against the crate's own parts: a defect shared by a part and the composite is C01-C03's business.",
+            "DESIGN.md 4/C15"),
+    "C16": ("model_checking",
+            "explicit-state enumeration of the builder state machine (all abstract states, all transitions, all setter orders) against a reference predicate",
+            "All 11^5 abstract builder states, all 50 setter transitions out of each, all 120 setter orders on all 10^5 complete lattice tuples, all setter sequences with repetition up to length 6/7 over {-1,1,NaN}; build() compared with the reference predicate, getters bit-exact, clone ==.",
+            "Exhaustive over the 10-value lattice (every order type of the prices, every sign class of volume); other finite values not enumerated.",
+            "DESIGN.md 4/C16"),
+    "C17": ("model_checking",
+            "bounded-exhaustive enumeration of (prefix, suffix) pairs; differential oracle vs fresh instance fed only the suffix",
+            "SMA, WMA, SD, MAD, MIN, MAX, FAST_STOCH, BB, CCI (suffix n) and ROC, ER, MFI (suffix n+1), periods 1..4: every prefix over ordinary values and spikes 1e3..7e6 (incl. negative) up to depth 3/4 x every suffix over {1,2,4,7} of length w..w+1 (w+2); exact for comparison-only indicators, tau(t)*M (variances, condition numbers) for accumulating ones.",
+            "Finite alphabets; periods 1..4.",
+            "DESIGN.md 4/C17"),
+    "C18": ("exploration",
+            "bounded-exhaustive short sequences (serialized size in every state) + systematic enumeration of long generated streams with a counting global allocator",
+            "All 22 indicators: bincode length in every state of every sequence over 3 symbols up to depth min(3n+3, 10/13) for periods 1..4; long runs (all 25 ordered pairs of {up, down, alternating, flat, walk} segments, 2e4 / 5e5 inputs each, periods up to 257 / 512): serialized length at checkpoints and live heap bytes of the executing thread after warm-up vs after every segment, both bounded by 256 + 64*sum(periods).",
+            "Designed family of stream shapes; heap measured per thread.",
+            "DESIGN.md 4/C18"),
 }
 
 NOT_YET = "check not built yet in this revision of /verif (work in progress; see DESIGN.md section 4)"
